@@ -435,7 +435,13 @@ class BADS:
         LB_eff[np.isinf(lower_bounds)] = lower_bounds[np.isinf(lower_bounds)]
         UB_eff[np.isinf(upper_bounds)] = upper_bounds[np.isinf(upper_bounds)]
 
-        if np.any(LB_eff >= UB_eff):
+        # (the margin rounds away when finite bounds are only a few ulps apart:
+        # then no point is strictly inside at the resolution BADS works with)
+        finite_bounds = np.isfinite(lower_bounds) & np.isfinite(upper_bounds)
+        if np.any(LB_eff >= UB_eff) or np.any(
+            finite_bounds
+            & ((LB_eff <= lower_bounds) | (UB_eff >= upper_bounds))
+        ):
             raise ValueError(
                 """bads:StrictBoundsTooClose: Hard bounds lower_bounds and upper_bounds
                 are numerically too close. Make them more separate."""
